@@ -31,6 +31,11 @@ def episode(run, sb, rng, k, rc, samples, names, tag):
     sb.merge(["x", "y"], "xy")
     sb.merge(["y", "x"], "yx")
     sb.load_event("xy")
+    # three files, both ways round: the k-mers of y are in x as well but not in z (present - absent - present across the inputs)
+    sb.build("z", [[gen.rand_seq(rng, 2 * k + 5)]], ["third_" + names[0]], k, rc)
+    sb.merge(["y", "z", "x"], "yzx")
+    sb.merge(["x", "z", "y"], "xzy")
+    sb.nk_event("yzx")
     w = tc.weed_set(rng, samples, k)
     if any(tc._has_window(r, k) for r in w):
         sb.weed("x", w, rng.random() < 0.3, [0, 1000], "no-filter", False, False, False, out="wd")
